@@ -1081,6 +1081,15 @@ def mem_take(ctx):
     if isinstance(old, Agg) and old.name == 'Option':
         ex.store(st, r.cell, r.path, mk_option(ex, None))
         return old
+    if isinstance(old, SeqV):
+        ex.store(st, r.cell, r.path, SeqV.from_items([], old.elem_ty, old.kind))
+        return old
+    if isinstance(old, Int):
+        ex.store(st, r.cell, r.path, Int(BV(0, old.bits), old.bits, old.signed))
+        return old
+    if isinstance(old, Bool):
+        ex.store(st, r.cell, r.path, Bool(z3.BoolVal(False)))
+        return old
     return NotImplemented
 
 
@@ -1090,7 +1099,7 @@ def box_new(ctx):
     return Ref(c, ())
 
 
-@contract(r'^Pin::<.*>::new_unchecked$|^Pin::<.*>::new$|^Pin::<.*>::as_mut$|^Pin::<.*>::get_mut$|^Pin::<.*>::get_unchecked_mut$|^Pin::<.*>::into_inner$|^<Pin<.*> as (?:std::ops::)?Deref(?:Mut)?>::deref(?:_mut)?$|^<Box<.*> as (?:std::ops::)?Deref(?:Mut)?>::deref(?:_mut)?$|^<(?:std::sync::)?Arc<.*> as (?:std::ops::)?Deref>::deref$|^<(?:std::sync::)?Arc<.*> as AsRef<.*>>::as_ref$|^<(?:std::boxed::)?Box<.*> as AsRef<.*>>::as_ref$|^<(?:tokio::sync::|std::sync::)?(?:Owned)?(?:RwLockReadGuard|RwLockWriteGuard|MutexGuard|RwLockMappedWriteGuard)<.*> as (?:std::ops::)?Deref(?:Mut)?>::deref(?:_mut)?$|^<&mut .* as (?:std::ops::)?Deref(?:Mut)?>::deref(?:_mut)?$|^<&.* as (?:std::ops::)?Deref>::deref$|^<.* as (?:std::future::)?IntoFuture>::into_future$|^<.* as (?:std::borrow::)?Borrow(?:Mut)?<.*>>::borrow(?:_mut)?$')
+@contract(r'^Pin::<.*>::new_unchecked$|^Pin::<.*>::new$|^Pin::<.*>::as_mut$|^Pin::<.*>::get_mut$|^Pin::<.*>::get_unchecked_mut$|^Pin::<.*>::into_inner$|^<Pin<.*> as (?:std::ops::)?Deref(?:Mut)?>::deref(?:_mut)?$|^<Box<.*> as (?:std::ops::)?Deref(?:Mut)?>::deref(?:_mut)?$|^<(?:std::sync::)?Arc<.*> as (?:std::ops::)?Deref>::deref$|^<(?:std::sync::)?Arc<.*> as AsRef<.*>>::as_ref$|^<(?:std::boxed::)?Box<.*> as AsRef<.*>>::as_ref$|^<(?:tokio::sync::|std::sync::)?(?:Owned)?(?:RwLockReadGuard|RwLockWriteGuard|MutexGuard|RwLockMappedWriteGuard)<.*> as (?:std::ops::)?Deref(?:Mut)?>::deref(?:_mut)?$|^<(?:chashmap_async::)?(?:ReadGuard|WriteGuard)<.*> as (?:std::ops::)?Deref(?:Mut)?>::deref(?:_mut)?$|^<&mut .* as (?:std::ops::)?Deref(?:Mut)?>::deref(?:_mut)?$|^<&.* as (?:std::ops::)?Deref>::deref$|^<.* as (?:std::future::)?IntoFuture>::into_future$|^<.* as (?:std::borrow::)?Borrow(?:Mut)?<.*>>::borrow(?:_mut)?$')
 def pointer_identity(ctx):
     a = ctx.args[0]
     if isinstance(a, Ref):
